@@ -121,10 +121,10 @@ def rule_duration_formula(ctx, rule="R4", tab=None, adt=TT.TS):
     fin_rows = [p for p in ps if p not in inf_rows and p.outcome == "return"]
     okinf = len(inf_rows) >= 1
     for p in inf_rows:
-        # reached exactly under repeat == Infinite
-        okinf = okinf and any(_is_infinite_test(t, roles) and v == 1 for (t, v, s) in p.conds)
+        # reached exactly under repeat == Infinite (an equality test or a match arm)
+        okinf = okinf and _infinite_decided(p, roles) == 1
     for p in fin_rows:
-        okinf = okinf and any(_is_infinite_test(t, roles) and v == 0 for (t, v, s) in p.conds)
+        okinf = okinf and _infinite_decided(p, roles) == 0
     ctx.ob(rule, "get_duration/infinite-iff-Infinite", okinf,
            "get_duration must be INFINITY exactly when repeat is Infinite", gd["span"], what="infinite-duration-test")
     # threshold per variant vs duration formula with as_ordinal specialised
@@ -171,6 +171,21 @@ def rule_duration_formula(ctx, rule="R4", tab=None, adt=TT.TS):
         if r.repeat == "Infinite":
             ctx.ob(rule, "never-ended/" + r.label, r.kind != "Ended", "an infinitely repeating timeline never ends",
                    tab["body"]["span"], what="infinite-ends")
+
+
+def _infinite_decided(p, roles):
+    """1 / 0 / None: the path has established repeat == Infinite / repeat != Infinite / neither"""
+    rep = TT.fld(roles["repeat"])
+    for (t, v, s) in p.conds:
+        if _is_infinite_test(t, roles) and v in (0, 1):
+            return v
+        if t[0] == "discr" and t[1] == rep:
+            names = {int(d): n for n, d in t[2]}
+            if not isinstance(v, tuple):
+                return 1 if names.get(v) == "Infinite" else 0
+            if v[0] == "not" and any(names.get(int(x)) == "Infinite" for x in v[1]):
+                return 0
+    return None
 
 
 def _is_infinite_test(t, roles):
